@@ -143,6 +143,49 @@ state_v01_checked = bool(
     re.search(r'try_from\s*=\s*"StateV01Unchecked"', sv01)
     and re.search(r"let contained = raw\.predicate\.clone\(\)\.into_trait\(\)\.version\(\);\s*if raw\.predicate_type != contained\s*\{\s*return Err", sv01))
 
+# `FromMerge::merge`: which expression every member of the built statement is initialised with
+rename_of = {}
+for sub in ("statement",):
+    d = os.path.join(repo, "src", "models", sub)
+    for fn in sorted(os.listdir(d)):
+        if fn.endswith(".rs"):
+            text = strip_tests(open(os.path.join(d, fn)).read())
+            for m in re.finditer(r"pub struct (\w+)\s*\{(.*?)\n\}", text, re.S):
+                pend, table = "", {}
+                for line in m.group(2).split("\n"):
+                    line = line.strip()
+                    if line.startswith("#["):
+                        pend += line
+                        continue
+                    fm = re.match(r"(?:pub(?:\([^)]*\))?\s+)?(\w+)\s*:", line)
+                    if fm:
+                        rn = re.search(r'rename\s*=\s*"([^"]+)"', pend)
+                        table[fm.group(1)] = rn.group(1) if rn else fm.group(1)
+                        pend = ""
+                rename_of[m.group(1)] = table
+merges = []
+for sname, fn in (("StateNaive", "state_naive.rs"), ("StateV01", "state_v01.rs")):
+    text = strip_tests(open(os.path.join(repo, "src/models/statement", fn)).read())
+    m = re.search(r"impl FromMerge for %s\s*\{.*?Ok\(%s\s*\{(.*?)\}\)" % (sname, sname), text, re.S)
+    ver = re.search(r"let version = StatementVer::(\w+)\.into\(\);", text)
+    if not m or not ver:
+        print("schema.py: cannot read the merge of", sname)
+        sys.exit(1)
+    rows = []
+    for part in m.group(1).split(","):
+        part = " ".join(part.split())
+        if not part:
+            continue
+        fm = re.match(r"(\w+)\s*:\s*(.+)$", part)
+        if not fm or fm.group(1) not in rename_of.get(sname, {}):
+            print("schema.py: cannot read the member initialiser %r of %s::merge" % (part, sname))
+            sys.exit(1)
+        src = fm.group(2)
+        if src == "version":
+            src = "StatementVer::%s" % ver.group(1)
+        rows.append((rename_of[sname][fm.group(1)], src))
+    merges.append((sname, rows))
+
 ptrial = trial_order(os.path.join(repo, "src/models/predicate/mod.rs"), "PredicateVer", "PredicateWrapper")
 strial = trial_order(os.path.join(repo, "src/models/statement/mod.rs"), "StatementVer", "StatementWrapper")
 
@@ -187,6 +230,9 @@ with open(os.path.join(outdir, "Schema.lean"), "w") as f:
     for nm, tr in (("predicateTrialOrder", ptrial), ("statementTrialOrder", strial)):
         f.write("/-- version detection: (version variant, struct) in the order they are tried -/\n")
         f.write("def %s : List (List Char × List Char) := [\n%s\n]\n\n" % (nm, ",\n".join("  (%s, %s)" % (chars(v), chars(t)) for v, t in tr)))
+    f.write("/-- `FromMerge::merge`: (struct, [(member, the expression it is initialised with)]) -/\n")
+    f.write("def mergeTable : List (List Char × List (List Char × List Char)) := [\n%s\n]\n\n" % ",\n".join(
+        "  (%s, [\n%s])" % (chars(n), ",\n".join("    (%s, %s)" % (chars(a), chars(b)) for a, b in rows)) for n, rows in merges))
     f.write("/-- `StateV01` is decoded through `TryFrom<StateV01Unchecked>`, which rejects a declared predicate type\n    other than the version of the contained predicate -/\n")
     f.write("def stateV01ChecksPredicateType : Bool := %s\n\n" % ("true" if state_v01_checked else "false"))
     f.write("end InToto.Generated\n")
